@@ -1120,7 +1120,10 @@ def pack_case(ctx, stream, objs, opts, workers=None, model=True, git=False):
                 for u in p.data.iter_unpacked():
                     kinds["ofs" if u.pack_type_num == 6 else "ref" if u.pack_type_num == 7 else "full"] += 1
             except Exception as e:
-                ok = _fail(ctx, stream, case, f"reading back what dulwich wrote failed: {type(e).__name__}: {str(e)[:150]}", cls)
+                c2 = cls
+                if cls == "duplicate-input-objects" and "Length mismatch" not in str(e):
+                    c2 = None                       # a duplicate-bearing input failing in some *other* way is news
+                ok = _fail(ctx, stream, case, f"reading back what dulwich wrote failed: {type(e).__name__}: {str(e)[:150]}", c2)
         finally:
             p.close()
     d = ctx.hist.setdefault(stream + ".entry-kinds", {})
